@@ -99,6 +99,7 @@ def observe (s : State) (a : Action) : String :=
       | some n => showNotifAt n
       | none => "?"
     | .advance _ => "fired=" ++ showNats (firedIds s)
+    | .ack _ => if s.panicked then "panic" else "-"
     | _ => "-"
   thread ++ " " ++ snapshot s
 
@@ -129,7 +130,7 @@ def fingerprint (s : State) : String :=
       s!":h={showHRef (s.rpc i)}:a={b01 (s.ack i)}"))
   let ns := (sortNats s.nstarted).filterMap (fun i => (s.notifs i).map (fun n =>
     s!"n{i}:{n.target}:{b01 n.isErr}:{n.val}:{showNotifAt n}:{showHRef (some n.fn)}"))
-  " ".intercalate cs ++ " | " ++ " ".intercalate ns ++ s!" | {b01 s.closed}{b01 s.reqC} t={s.now} " ++ summary s
+  " ".intercalate cs ++ " | " ++ " ".intercalate ns ++ s!" | {b01 s.closed}{b01 s.reqC}{b01 s.panicked} cl={showNats s.closers} t={s.now} " ++ summary s
 
 def dedupBy (key : State → String) : List State → List String → List State
   | [], _ => []
@@ -171,8 +172,9 @@ def parseLabel (ws : List String) : Option Label :=
   | "ack" :: ids => do pure (.act (.ack (← ids.mapM String.toNat?)))
   | ["cancel", i] => do pure (.act (.cancel (← i.toNat?)))
   | ["adv", d] => do pure (.act (.advance (← d.toNat?)))
-  | ["close"] => some (.act .close)
-  | ["fclose"] => some (.act .fclose)
+  | ["close", k] => do pure (.act (.close (← k.toNat?)))
+  | ["fclose", k] => do pure (.act (.fclose (← k.toNat?)))
+  | ["cret", k] => do pure (.act (.cret (← k.toNat?)))
   | _ => none
 
 /-- Replay `items` (each `label > observation`) from the state set `ss`; `k` counts steps. -/
@@ -193,14 +195,14 @@ def replayFrom (cfg : Cfg) : List State → Nat → List String → String
     | _ => "bad-op"
 
 /-- `replay <maxRetries> <interval> | label > obs | label > obs | …` -/
-def handleReplay (guard recheck : Bool) (line : String) : String :=
+def handleReplay (mk : Nat → Nat → Cfg) (line : String) : String :=
   match line.splitOn " | " with
   | hd :: items =>
     match words hd with
     | ["replay", mr, iv] =>
       match mr.toNat?, iv.toNat? with
       | some mr, some iv =>
-        replayFrom { guard := guard, recheck := recheck, maxRetries := mr, interval := iv } [init] 0
+        replayFrom (mk mr iv) [init] 0
           (items.filter (fun s => s.trimAscii.toString ≠ ""))
       | _, _ => "bad-op"
     | _ => "bad-op"
